@@ -1227,6 +1227,7 @@ func c15(w *core.World, r *core.Report) {
 	ruleLeafrefTarget(w, r)
 
 	// ---- EQUAL-EXACT
+	ruleTextVerbatim(w, r, "TEXT-VERBATIM")
 	r.Rule("EQUAL-EXACT", 1, "the value comparison behind NOT_APPLIED / OVERRULED is exact: no function reachable from utils.EqualTypedValues (static calls inside the repository) converts a value number with loss (int64 -> float64, narrowing, sign change; rule table shared with C12.LOSSY). Comparing decimal64 values as floats makes numbers that differ in the 17th digit equal, so a real deviation is not reported.")
 	if eq := w.Func("pkg/utils", "", "EqualTypedValues"); eq != nil {
 		setWordBits(w)
